@@ -997,11 +997,16 @@ fn check_e2e(cx: &mut Cx, t: &T, binds: &Binds)
 	let imports: String = names.iter().map(|(n, _)| format!(".import {n};\n")).collect();
 	let defs = format!("{defs_now}{defs_later}");
 	let single_declared_ok = results[3].1.is_ok();
+	// an imported name that is defined ABOVE the include is known at once in the included file: the variant corresponds to the
+	// single-file order "definitions above" and must assemble exactly when THAT order does (another single-file order may assemble
+	// although this one overflows: with the names still unvalued the simplifier can cancel, e.g. `(k9 * …) * 0`, where full constant
+	// folding overflows — C08 compares values only "whenever both produce a value")
+	let single_above_ok = results[0].1.is_ok();
 	let variants: [(&str, String, Option<String>, bool); 5] = [
-		("imported, defined above the include", format!(".addr 0x100;\n{defs}{decls}.include \"inc.asm\";\n"), None, true),
+		("imported, defined above the include", format!(".addr 0x100;\n{defs}{decls}.include \"inc.asm\";\n"), None, single_above_ok),
 		("imported, declared above and defined below the include", format!(".addr 0x100;\n{decls}.include \"inc.asm\";\n{defs}"), None, single_declared_ok),
 		("imported, declared above, some defined above and some below the include", format!(".addr 0x100;\n{decls}{defs_now}.include \"inc.asm\";\n{defs_later}"), None, single_declared_ok),
-		("imported through a file in between, defined above", format!(".addr 0x100;\n{defs}{decls}.include \"mid.asm\";\n"), Some(format!("{imports}.include \"inc.asm\";\n")), true),
+		("imported through a file in between, defined above", format!(".addr 0x100;\n{defs}{decls}.include \"mid.asm\";\n"), Some(format!("{imports}.include \"inc.asm\";\n")), single_above_ok),
 		("imported through a file in between, defined below", format!(".addr 0x100;\n{decls}.include \"mid.asm\";\n{defs}"), Some(format!("{imports}.include \"inc.asm\";\n")), false),
 	];
 	for (vname, main, mid, must) in variants.iter()
